@@ -219,6 +219,31 @@ pub mod env {
         fn buffer_consume(&mut self, buffer_id: BufferId) -> (ret: Result<Vec<u8>, InvokeError<WasmRuntimeError>>) { unimplemented!() }
     }
 
+    use super::unit::ScryptoVmVersion;
+    // ASSUMED: the derived PartialOrd on the fieldless enum orders the variants by declaration order.
+    pub open spec fn version_rank(v: ScryptoVmVersion) -> int {
+        match v { super::unit::ScryptoVmVersion::V1_0 => 0, super::unit::ScryptoVmVersion::V1_1 => 1, super::unit::ScryptoVmVersion::V1_2 => 2 }
+    }
+    impl PartialEq for ScryptoVmVersion {
+        #[verifier::external_body]
+        fn eq(&self, o: &ScryptoVmVersion) -> (r: bool) ensures r == (*self == *o) { unimplemented!() }
+    }
+    impl vstd::std_specs::cmp::PartialEqSpecImpl for ScryptoVmVersion {
+        open spec fn obeys_eq_spec() -> bool { true }
+        open spec fn eq_spec(&self, o: &ScryptoVmVersion) -> bool { *self == *o }
+    }
+    impl PartialOrd for ScryptoVmVersion {
+        #[verifier::external_body]
+        fn partial_cmp(&self, o: &ScryptoVmVersion) -> (r: Option<core::cmp::Ordering>)
+            ensures r == Some(if version_rank(*self) < version_rank(*o) { core::cmp::Ordering::Less } else if version_rank(*self) == version_rank(*o) { core::cmp::Ordering::Equal } else { core::cmp::Ordering::Greater })
+        { unimplemented!() }
+    }
+    impl vstd::std_specs::cmp::PartialOrdSpecImpl for ScryptoVmVersion {
+        open spec fn obeys_partial_cmp_spec() -> bool { true }
+        open spec fn partial_cmp_spec(&self, o: &ScryptoVmVersion) -> Option<core::cmp::Ordering> {
+            Some(if version_rank(*self) < version_rank(*o) { core::cmp::Ordering::Less } else if version_rank(*self) == version_rank(*o) { core::cmp::Ordering::Equal } else { core::cmp::Ordering::Greater })
+        }
+    }
     // ---- error / system environment ------------------------------------------------------------
     pub struct RuntimeError;
     /// radix-engine/src/errors.rs :: trait SelfError
@@ -309,30 +334,6 @@ pub mod unit {
         @*/
     }
 
-    // ASSUMED: the derived PartialOrd on the fieldless enum orders the variants by declaration order.
-    pub open spec fn version_rank(v: ScryptoVmVersion) -> int {
-        match v { ScryptoVmVersion::V1_0 => 0, ScryptoVmVersion::V1_1 => 1, ScryptoVmVersion::V1_2 => 2 }
-    }
-    impl PartialEq for ScryptoVmVersion {
-        #[verifier::external_body]
-        fn eq(&self, o: &ScryptoVmVersion) -> (r: bool) ensures r == (*self == *o) { unimplemented!() }
-    }
-    impl vstd::std_specs::cmp::PartialEqSpecImpl for ScryptoVmVersion {
-        open spec fn obeys_eq_spec() -> bool { true }
-        open spec fn eq_spec(&self, o: &ScryptoVmVersion) -> bool { *self == *o }
-    }
-    impl PartialOrd for ScryptoVmVersion {
-        #[verifier::external_body]
-        fn partial_cmp(&self, o: &ScryptoVmVersion) -> (r: Option<core::cmp::Ordering>)
-            ensures r == Some(if version_rank(*self) < version_rank(*o) { core::cmp::Ordering::Less } else if version_rank(*self) == version_rank(*o) { core::cmp::Ordering::Equal } else { core::cmp::Ordering::Greater })
-        { unimplemented!() }
-    }
-    impl vstd::std_specs::cmp::PartialOrdSpecImpl for ScryptoVmVersion {
-        open spec fn obeys_partial_cmp_spec() -> bool { true }
-        open spec fn partial_cmp_spec(&self, o: &ScryptoVmVersion) -> Option<core::cmp::Ordering> {
-            Some(if version_rank(*self) < version_rank(*o) { core::cmp::Ordering::Less } else if version_rank(*self) == version_rank(*o) { core::cmp::Ordering::Equal } else { core::cmp::Ordering::Greater })
-        }
-    }
     impl ScryptoVmVersion {
         /*@fn radix-engine/src/vm/versions.rs :: impl ScryptoVmVersion :: fn cuttlefish
         @sig
